@@ -503,7 +503,59 @@ def run_sampling(ctx):
         pass
 
 
+def run_stream_consumers(ctx):
+    """R-C11.B: code that is handed a stream by reference takes from it exactly what it returns.
+    (1) no function wraps a stream it only BORROWS (`&mut S`) in a buffering `Prng` (the look-ahead would swallow bytes the
+        caller reads next);
+    (2) `IdpfValue::generate` of the pair type draws its two elements with two `F::generate(stream)` calls;
+    (3) a `Seed` sampled from a stream is one `fill` of exactly its SEED_SIZE bytes."""
+    rule = "R-C11.B"
+    prog = ctx.prog
+    n = 0
+    for f in sorted((x for x in prog.fns if x.body is not None and not prog.is_test_util(x)), key=lambda x: x.id):
+        for bi, t in f.body.calls():
+            if t.callee.name not in ("from_seed_stream",) or not t.args:
+                continue
+            g = ctx.guards(f)
+            a = g.eb.operand(t.args[0])
+            n += 1
+            key = "%s:%s:from_seed_stream#%d" % (rule, f.id, n)
+            borrowed = a[0] == "param" and prog.types[f.body.locals[a[2]]].get("k") == "ref"
+            if borrowed:
+                ctx.bad(rule, key, "%s wraps a borrowed stream in a buffering Prng: the read-ahead consumes bytes that belong to the caller's next read" % f.id,
+                        loc="%s:%s" % (f.file, t.line))
+            else:
+                ctx.ok(rule, key, "Prng::from_seed_stream receives an owned stream", loc="%s:%s" % (f.file, t.line), nontrivial=False)
+    try:
+        f = ctx.fn(rule, name="generate", trait="IdpfValue", self_adt="vdaf::poplar1::Poplar1IdpfValue")
+        g = ctx.guards(f)
+        key = "%s:%s" % (rule, f.id)
+        rds = [rd for rd in g.retdefs if rd.expr is not None]
+        gen = Call("generate", Arg(1), Any())
+        good = len(rds) == 1 and Agg("Poplar1IdpfValue", Agg("array", gen, gen))(rds[0].expr) and \
+            len([1 for bi, t in f.body.calls() if t.callee.name in ("generate",)]) == 2 and \
+            not [1 for bi, t in f.body.calls() if t.callee.name in ("get", "fill", "fill_bytes", "from_seed_stream", "random", "next_u32", "next_u64")]
+        req(ctx, rule, key, good, "Poplar1IdpfValue::generate = [F::generate(stream), F::generate(stream)]",
+            "Poplar1IdpfValue::generate does not draw exactly two elements straight from the borrowed stream: %s" % [fmt(r.expr)[:120] for r in rds], loc=f.loc)
+    except Skip:
+        pass
+    try:
+        f = ctx.fn(rule, name="sample", id_re=r"Distribution<vdaf::xof::Seed<SEED_SIZE>> for .*>::sample$")
+        g = ctx.guards(f)
+        key = "%s:%s" % (rule, f.id)
+        fills = [g.eb.call_expr(t) for bi, t in f.body.calls() if t.callee.name in ("fill", "fill_bytes", "try_fill_bytes")]
+        others = [t.callee.name for bi, t in f.body.calls() if t.callee.name in ("random", "next_u32", "next_u64", "sample", "random_range", "random_iter")]
+        rds = [rd for rd in g.retdefs if rd.expr is not None]
+        good = len(fills) == 1 and not others and len(rds) == 1 and Agg("Seed", Any())(rds[0].expr) and Arg(2)(fills[0][2][0])
+        req(ctx, rule, key, good, "a Seed sampled from a stream is one fill of its SEED_SIZE bytes",
+            "Distribution<Seed>::sample is not a single byte fill of the seed (fills %d, other draws %s)" % (len(fills), others), loc=f.loc)
+    except Skip:
+        pass
+    ctx.floor(rule, 3)
+
+
 def run(ctx):
+    run_stream_consumers(ctx)
     xof_rules.run_absorb(ctx, "R-C11.A")
     xof_rules.run_update_forward(ctx, "R-C11.A.update")
     xof_rules.run_seed_stream(ctx, "R-C11.S")
